@@ -64,9 +64,9 @@ def to_config(kind, o, paths, template=False):
     if o.get("meta") is not None:
         cfg["metadata_path"] = (root + "/" + rel[o["meta"]]) if o["meta"] in rel else paths.p[o["meta"]]
     if o.get("cache") is not None:
-        cfg["memory_cache_mb"] = o["cache"]
+        cfg["memory_cache_mb"] = "CACHEPLACEHOLDER" if template else o["cache"]
     if o.get("ro") is not None:
-        cfg["readonly"] = o["ro"]
+        cfg["readonly"] = "ROPLACEHOLDER" if template else o["ro"]
     return cfg
 
 
@@ -169,9 +169,11 @@ def run(tier, seed):
             # whose cluster is inline
             if form == "yaml":
                 rcfg = {"name": "repo%d" % n, "clusters": {"fc": ccfg}}
+                # the numeric and boolean options are template parameters too, rendered from Python values (False, 0.5, ...)
+                text = yaml.safe_dump(rcfg).replace("ROPLACEHOLDER", "{{ ro }}").replace("CACHEPLACEHOLDER", "{{ cache }}")
                 with open(os.path.join(cfgdir, "r%d.yaml" % n), "w") as f:
-                    yaml.safe_dump(rcfg, f)
-                repo = ConfigurationRepository.from_file(os.path.join(cfgdir, "r%d.yaml" % n), root=os.path.dirname(paths.p[1]))
+                    f.write(text)
+                repo = ConfigurationRepository.from_file(os.path.join(cfgdir, "r%d.yaml" % n), root=os.path.dirname(paths.p[1]), ro=file_o.get("ro"), cache=file_o.get("cache"))
             else:
                 repo = ConfigurationRepository.from_file(os.path.join(cfgdir, "r%d.json" % n))
             return repo.clusters["fc"].storage
